@@ -347,3 +347,89 @@ Example sibling_backref_same_name_refused :
                                              | CFkIndex f t b nl => if str_eqb b n_ctrs then CFkIndex f t n_mgrs nl else k
                                              | _ => k end) (sd_cons d)) (sd_links d)) C06sb_schema) = false.
 Proof. vm_compute. reflexivity. Qed.
+
+(* ---- fk fields under a path prefix (store_c06_pfx.go: C06pa, C06pb, C06pc; generated from the harness' own schema text with
+   `storageharness c04-coqschema --wirings C06pa,C06pb,C06pc`) ----
+   The wirings keep foreign-key fields (cascade / restrict constraints, fk indexes) and a uniquely indexed field in NESTED buckets
+   of the entity (symbols declared with a path prefix).  Where a field is stored inside the entity is not part of the schema: the
+   model - and therefore wf_notrace_b and the theorems of Properties/C06.v - see ordinary fields, and the harness projects the
+   nested values as ordinary field facts.  C06pb / C06pc are C06sa / C06sc (plus one cascading fk index) with nested fields. *)
+Definition p_name : name := [110;97;109;101].
+Definition p_boss : name := [98;111;115;115].
+Definition p_dept : name := [100;101;112;116].
+Definition p_room : name := [114;111;111;109].
+Definition p_roles : name := [114;111;108;101;115].
+Definition p_emp : name := [101;109;112].
+Definition p_proj : name := [112;114;111;106].
+Definition p_owner : name := [111;119;110;101;114].
+Definition p_backup : name := [98;97;99;107;117;112].
+Definition p_title : name := [116;105;116;108;101].
+Definition p_label : name := [108;97;98;101;108].
+Definition p_code : name := [99;111;100;101].
+Definition p_marks : name := [109;97;114;107;115].
+Definition p_mgr : name := [109;103;114].
+Definition p_sponsor : name := [115;112;111;110;115;111;114].
+Definition p_ctr : name := [99;116;114].
+Definition p_desk : name := [100;101;115;107].
+Definition p_nick : name := [110;105;99;107].
+Definition p_vends : name := [118;101;110;100;115].
+Definition p_tmp : name := [116;109;112].
+Definition p_vend : name := [118;101;110;100].
+Definition p_tmps : name := [116;109;112;115].
+Definition C06pa_schema : schema :=
+  [ mkSdef p_emp None false [(p_name, false); (p_boss, true); (p_dept, false); (p_room, true)] [p_roles]
+      [CUnique p_name false; CSetIdx p_roles; CFkCons p_boss p_emp true; CFkCascade p_emp p_boss CascNone; CFkCons p_dept p_dept false; CFkCons p_room p_room true; CFkCascade p_proj p_owner CascDelete; CFkCascade p_proj p_backup CascNone] [];
+    mkSdef p_dept None false [(p_title, false)] []
+      [CFkCascade p_emp p_dept CascDelete] [];
+    mkSdef p_room None false [(p_label, true)] []
+      [CFkCascade p_emp p_room CascNone; CUnique p_label true] [];
+    mkSdef p_proj None false [(p_name, false); (p_owner, false); (p_code, true); (p_backup, true)] []
+      [CFkCons p_owner p_emp false; CUnique p_code true; CFkCons p_backup p_emp true] [] ].
+Definition C06pb_schema : schema :=
+  [ mkSdef p_dept None false [(p_name, false)] [p_marks]
+      [CUnique p_name false; CSetIdx p_marks; CFkCascade p_mgr p_sponsor CascDelete; CFkCascade p_ctr p_sponsor CascDelete] [];
+    mkSdef p_room None false [(p_name, true)] []
+      [CUnique p_name true; CFkCascade p_mgr p_desk CascNone; CFkCascade p_ctr p_desk CascNone] [];
+    mkSdef p_emp None false [(p_name, false); (p_nick, true)] [p_marks]
+      [CUnique p_name false; CSetIdx p_marks] [];
+    mkSdef p_mgr (Some p_emp) false [(p_sponsor, false); (p_desk, true)] []
+      [CFkCons p_sponsor p_dept false; CFkCons p_desk p_room true] [];
+    mkSdef p_ctr (Some p_emp) false [(p_sponsor, true); (p_desk, true)] []
+      [CFkCons p_sponsor p_dept true; CFkCons p_desk p_room true] [] ].
+Definition C06pc_schema : schema :=
+  [ mkSdef p_dept None false [(p_name, false)] [p_marks]
+      [CUnique p_name false; CSetIdx p_marks; CFkCascade p_mgr p_sponsor CascDelete; CFkCascade p_ctr p_sponsor CascDelete; CFkCascade p_emp p_sponsor CascNone; CFkRestrict p_vends; CFkCascade p_tmp p_sponsor CascDelete] [];
+    mkSdef p_emp None false [(p_name, false); (p_sponsor, true)] [p_marks]
+      [CUnique p_name false; CSetIdx p_marks; CFkCons p_sponsor p_dept true] [];
+    mkSdef p_vend None false [(p_name, false); (p_sponsor, true)] []
+      [CUnique p_name false; CFkIndex p_sponsor p_dept p_vends true] [];
+    mkSdef p_mgr (Some p_emp) false [(p_sponsor, true); (p_code, true)] []
+      [CUnique p_code true; CFkCons p_sponsor p_dept true] [];
+    mkSdef p_ctr (Some p_emp) false [(p_sponsor, true)] []
+      [CFkCons p_sponsor p_dept true] [];
+    mkSdef p_tmp (Some p_emp) false [(p_sponsor, false)] []
+      [CFkIndex p_sponsor p_dept p_tmps false] [] ].
+
+Example C06pa_schema_wf : wf_notrace_b C06pa_schema = true.
+Proof. vm_compute. reflexivity. Qed.
+Example C06pb_schema_wf : wf_notrace_b C06pb_schema = true.
+Proof. vm_compute. reflexivity. Qed.
+Example C06pc_schema_wf : wf_notrace_b C06pc_schema = true.
+Proof. vm_compute. reflexivity. Qed.
+(* the nested fields are what the delete constraints of the target stores work on: the chain dept -> emp -> proj of C06pa, one
+   guard per referrer store (level) in C06pb / C06pc; a schema that loses the guard of a nested field is refused *)
+Example C06pa_guards :
+  cascades_for C06pa_schema p_dept p_dept = [p_emp] /\ cascades_for C06pa_schema p_emp p_owner = [p_proj] /\
+  cascades_for C06pa_schema p_emp p_boss = [p_emp] /\ cascades_for C06pa_schema p_room p_room = [p_emp].
+Proof. vm_compute. repeat split; reflexivity. Qed.
+Example C06pb_guards :
+  cascades_for C06pb_schema p_dept p_sponsor = [p_mgr; p_ctr] /\ cascades_for C06pb_schema p_room p_desk = [p_mgr; p_ctr].
+Proof. vm_compute. split; reflexivity. Qed.
+Example C06pc_guards : cascades_for C06pc_schema p_dept p_sponsor = [p_mgr; p_ctr; p_emp; p_tmp].
+Proof. vm_compute. reflexivity. Qed.
+Example nested_cascade_guard_dropped_refused :
+  wf_notrace_b (drop_cons_of p_emp (fun k => match k with CFkCascade rs _ CascDelete => negb (str_eqb rs p_proj) | _ => true end) C06pa_schema) = false.
+Proof. vm_compute. reflexivity. Qed.
+Example nested_restrict_guard_dropped_refused :
+  wf_notrace_b (drop_cons_of p_room (fun k => match k with CFkCascade _ _ _ => false | _ => true end) C06pa_schema) = false.
+Proof. vm_compute. reflexivity. Qed.
